@@ -33,7 +33,8 @@ RULE = ("history = event sequence over {key-addressed operation (get, set, delet
         "first failure does not evict and a server leaves the rotation only after retry_attempts+1 failed contacts in a row since it last answered; a server that never failed is never out of rotation nor bypassed; after all "
         "servers heal, traffic for two dead_timeouts restores the original rotation and placement; only the failing "
         "server's own error or 'All servers seem to be down' escape, nothing with ignore_exc. Non-trivial: a server "
-        "went failing -> dead -> revived, or was probed again after a retry_timeout. Address styles: distinct hosts with int ports, or one host with ports 11211+i given as int for some servers and as text for others, or 'host:port' strings. Two users at once (turns at connect / send / receive / close, two calls each, four idle connections in the pool) while the server fails, its retry is due, its retries are used up or it is back after having been given up: only the server's error or 'all servers down' escapes, nothing with ignore_exc, and the rotation recovers. Operation incr_text makes a healthy server answer with an error line (optionally hanging up afterwards, dialect hangup-after-error): that is the call's error, not a server failure - an OSError counts as a server's own error only while a server is failing. Long lives: 1500 (thorough 6000) events on one client; operation get_many_big sends 4500 keys to one (failing) server in one call.")
+        "went failing -> dead -> revived, or was probed again after a retry_timeout. Address styles: distinct hosts with int ports, or one host with ports 11211+i given as int for some servers and as text for others, or 'host:port' strings. Two users at once (turns at connect / send / receive / close, two calls each, four idle connections in the pool) while the server fails, its retry is due, its retries are used up or it is back after having been given up: only the server's error or 'all servers down' escapes, nothing with ignore_exc, and the rotation recovers. Operation incr_text makes a healthy server answer with an error line (optionally hanging up afterwards, dialect hangup-after-error): that is the call's error, not a server failure - an OSError counts as a server's own error only while a server is failing. Long lives: 1500 (thorough 6000) events on one client; operation get_many_big sends 4500 keys to one (failing) server in one call."
+        + ' In the two-users part an outage is a server process that died: connections made before it stay dead (restarts_kill_connections); once the server is healthy and due back (phase given-up-and-back) no call may fail.')
 MANIFEST = {
     "category": "exploration",
     "technique": "stateful model-based exploration of failure/recovery event sequences on a virtual clock: bounded-exhaustive to a depth bound over a reduced alphabet x all retry configurations, plus Hypothesis sequences; invariants over a contact log and a routing log observed through the client_class and hasher seams",
